@@ -1,14 +1,28 @@
 #!/bin/bash
-# usage: tools/seedtest.sh <seeded-dir> <property-id> [tier]
-# Applies seeded/<dir>/patch.diff to /repo, runs the check, and always reverts.
+# usage: tools/seedtest.sh <seeded-dir> <property-id> [tier] [wt]
+# Applies seeded/<dir>/patch.diff, runs the check, and always reverts.
+# Default: the patch is applied to /repo itself (git apply / git checkout).
+# With "wt" as 4th argument the patch is applied to a scratch worktree of /repo's
+# HEAD instead and the check runs with --repo <worktree> (safe while other
+# checks are running against /repo). The evidence file is preserved either way.
 set -u
-d=$1; id=$2; tier=${3:-quick}
-cd /repo || exit 2
-if ! git diff --quiet; then echo "repo dirty"; exit 2; fi
-git apply "/verif/seeded/$d/patch.diff" || { echo "patch does not apply"; exit 2; }
-trap 'cd /repo && git checkout -- . && git clean -fdq' EXIT
-cp /verif/evidence/$id.json /tmp/evidence-backup-$id.json 2>/dev/null; cd /verif && /verif/bin/gosym check "$id" --tier "$tier" > "/tmp/seedtest-$d-$id.log" 2>&1
-rc=$?
-cp /tmp/evidence-backup-$id.json /verif/evidence/$id.json 2>/dev/null
-grep -E "^(VIOLATION|KNOWN-FINDING|INCONCLUSIVE|ENCODING-MISMATCH|OK)" "/tmp/seedtest-$d-$id.log" | head -8
+d=$1; id=$2; tier=${3:-quick}; mode=${4:-repo}
+cp /verif/evidence/$id.json /tmp/evidence-backup-$id.$$.json 2>/dev/null
+if [ "$mode" = wt ]; then
+  wt=$(mktemp -d /tmp/vrf-seedwt-XXXXXX); rmdir $wt
+  git -C /repo worktree add -q --detach $wt HEAD || exit 2
+  trap 'git -C /repo worktree remove --force $wt; git -C /repo worktree prune' EXIT
+  git -C $wt apply "/verif/seeded/$d/patch.diff" || { echo "patch does not apply"; exit 2; }
+  cd /verif && /verif/bin/gosym check "$id" --tier "$tier" --repo $wt > "/tmp/seedtest-$d-$id.log" 2>&1
+  rc=$?
+else
+  cd /repo || exit 2
+  if ! git diff --quiet; then echo "repo dirty"; exit 2; fi
+  git apply "/verif/seeded/$d/patch.diff" || { echo "patch does not apply"; exit 2; }
+  trap 'cd /repo && git checkout -- . && git clean -fdq' EXIT
+  cd /verif && /verif/bin/gosym check "$id" --tier "$tier" > "/tmp/seedtest-$d-$id.log" 2>&1
+  rc=$?
+fi
+cp /tmp/evidence-backup-$id.$$.json /verif/evidence/$id.json 2>/dev/null; rm -f /tmp/evidence-backup-$id.$$.json
+grep -E "^(VIOLATION|KNOWN-FINDING|INCONCLUSIVE|ENCODING-MISMATCH|OK)" "/tmp/seedtest-$d-$id.log" | cut -c1-200 | head -8
 echo "exit=$rc"
